@@ -21,6 +21,7 @@ type Ctx struct {
 	reach map[string]*prog.Reach
 	dyn   *dynTyper
 	Stats map[string]int
+	tabd     *tabData
 	VerifDir string
 	Seed     int
 }
@@ -121,6 +122,8 @@ func (c *Ctx) Reach(names ...string) (*prog.Reach, []string) {
 	c.reach[key] = r
 	return r, missing
 }
+
+func dominatingFactsOf(b *ssa.BasicBlock) []prog.Fact { return prog.DominatingFacts(b) }
 
 func isExported(name string) bool { return ast.IsExported(name) }
 
